@@ -100,6 +100,8 @@ def unparseable_cause(s, exc):
         causes.append("D_or_T_ion_printed_with_isotope_tag")
     if re.search(r"inf|nan", s):
         causes.append("non_finite_count")
+    if not causes and isinstance(exc, TypeError) and "NoneType" in str(exc):
+        causes.append("single_isotope_of_element_without_density")
     if not causes:
         causes.append("other_" + type(exc).__name__)
     return "+".join(causes)
@@ -283,6 +285,9 @@ EXPLAIN = {
     "D_or_T_ion_printed_with_isotope_tag": "an ion of D or T prints as 'D[2]{+}' / 'T[3]{-}' (symbol D plus "
                                            "an isotope tag); D and T take no isotope tag, so the parser "
                                            "fails with TypeError",
+    "single_isotope_of_element_without_density": "the printed text is a single isotope of an element of unknown "
+                                                 "density; parsing it raises in the single-atom density default "
+                                                 "(C06/C01 root cause)",
     "group_count_equal_1": "a group whose count is exactly 1 (e.g. 0.5*(2*f), or the unit component of a "
                            "mixture) is printed without parentheses, so the nesting of f.structure is not "
                            "recovered (low severity: same atoms and counts)",
@@ -326,11 +331,13 @@ def task_roundtrip(tier, seed, arg):
             g["count"] += 1
             g["sources"][source] = g["sources"].get(source, 0) + 1
             e = dict(s=s or "", table=tname, observed=observed, expected=expected,
-                     structure=structure_json(f.structure), source=source)
+                     structure=structure_json(f.structure), source=source,
+                     prio=0 if evals <= 2 * len(EXTRA_STRINGS) else 1)
             ex = g["examples"]
-            if all(x["s"] != e["s"] for x in ex) and (len(ex) < 6 or len(e["s"]) < len(ex[-1]["s"])):
+            key = lambda x: (x["prio"], len(x["s"]), x["s"])
+            if all(x["s"] != e["s"] for x in ex) and (len(ex) < 6 or key(e) < key(ex[-1])):
                 ex.append(e)
-                ex.sort(key=lambda x: (len(x["s"]), x["s"]))
+                ex.sort(key=key)
                 del ex[6:]
     violations = []
     for (kind, cause), g in sorted(groups.items()):
